@@ -194,8 +194,21 @@ func runStock(rc *RunCtx) {
 		FilterOperationOverrides: map[encrypt.DataClassification]encrypt.FilterOperation{encrypt.SensitiveClassification: encrypt.HmacSha256Operation}}
 	gf := &gated.Filter{Broker: b, Expiration: 50 * time.Millisecond}
 	src, _ := url.Parse("https://example.com/stock")
-	ce := &cloudevents.FormatterFilter{Source: src, SignEventTypes: []string{"t"}}
+	// two cloudevents formatters are configured from ONE list of event types to sign (the application's
+	// configuration value, in the order it was written): the list stays the application's
+	signTypes := []string{"zeta", "t", "alpha", "m"}
+	ce := &cloudevents.FormatterFilter{Source: src, SignEventTypes: signTypes}
 	ce.Signer = func(ctx context.Context, b []byte) (string, error) { return "sig0", nil }
+	ce2 := &cloudevents.FormatterFilter{Source: src, SignEventTypes: signTypes}
+	ce2.Signer = func(ctx context.Context, b []byte) (string, error) { return "sig0", nil }
+	rc.Final = append(rc.Final, func() {
+		if simrt.RaceBuild {
+			return
+		}
+		if got := strings.Join(signTypes, ","); got != "zeta,t,alpha,m" {
+			rc.Failf("C19.corrupted", "configuration-list-rewritten", "the list of event types to sign that both cloudevents formatters were configured from was [zeta t alpha m]; after the run it reads [%s]: a node rewrote the application's configuration value (shared by the other node)", got)
+		}
+	})
 	if tp.Choose(2, "ce-schema") == 0 {
 		ce.Schema, _ = url.Parse("https://example.com/stock-schema.json") // an optional part of the configuration
 	}
@@ -240,6 +253,7 @@ func runStock(rc *RunCtx) {
 		"json":     &el.JSONFormatter{},
 		"jsonff":   &el.JSONFormatterFilter{Predicate: func(interface{}) (bool, error) { return true, nil }},
 		"ce":       ce,
+		"ce2":      ce2,
 		"file":     fsink,
 		"filece":   fsinkCE,
 		"shA":      shA,
@@ -275,7 +289,7 @@ func runStock(rc *RunCtx) {
 			ids = append(ids, filters[tp.Choose(3, "after")]) // not gated after a formatter (keeps composites simple)
 		}
 		if tp.Choose(3, "cepipe") == 0 {
-			ids = append(ids, "ce", ceSinks[tp.Choose(len(ceSinks), "cesink")])
+			ids = append(ids, []string{"ce", "ce2"}[p%2], ceSinks[tp.Choose(len(ceSinks), "cesink")])
 		} else {
 			ids = append(ids, []string{"json", "jsonff"}[tp.Choose(2, "fmt")], jsonSinks[tp.Choose(len(jsonSinks), "sink")])
 		}
@@ -285,7 +299,7 @@ func runStock(rc *RunCtx) {
 			switch s {
 			case "encrypt", "encrypt2":
 				usesEncrypt = true
-			case "ce":
+			case "ce", "ce2":
 				usesCE = true
 			case "gated":
 				usesGated = true
